@@ -25,14 +25,18 @@ TRUSTED = [
     "re-enacted over memfs) vs Model/Gitignore on every case",
     "C-git: Spec/GitIgnore.git_ignored vs `git check-ignore --no-index -v -n -z --stdin` (git 2.39.5) on the cases of every run "
     "(spec_mismatches in the evidence must be 0)",
-    "the direct oracle: the implementation's verdict vs the same git invocation in a scratch repository that holds the ignore files and the paths",
+    "the direct oracle: for every directory and every file of the case's tree, the implementation's verdict through the status walk "
+    "(RootPatterns, NewScope, Descend with DirPatterns, Scope.Match) and through the deprecated flat API (NewMatcher(ReadPatterns).Match, "
+    "not modelled) vs the same git invocation in a scratch repository that holds the ignore files and the paths (directories exist there "
+    "and are queried without a trailing slash: with one, check-ignore takes the empty text after it as the basename)",
 ]
 ASSUMPTIONS = ["git 2.39.5 at /usr/bin/git is the reference (its literal-prefix handling of `foo**/bar` differs from git >= 2.52)",
                "patterns, paths and ignore files are NUL-free; path components are non-empty and contain no slash",
                "core.ignorecase is false (the matcher is case-sensitive; go-git exposes no case folding)"]
 RULE = ("case = a small directory tree, ignore files at the root / in sub-directories / info/exclude made of pattern lines derived "
         "from the tree's names (wildcards, brackets, escapes, ** forms, negation, dir-only, leading/trailing/doubled slashes, trailing "
-        "blanks, comments, CRLF, BOM), queried for every node of the tree; plus (pattern, text) pairs for dowild and (line, domain, path) "
+        "blanks, comments, CRLF, BOM; a dedicated bucket of directory-only patterns followed by blanks / escaped blanks / tabs in the root "
+        "file, a nested file and info/exclude), queried for every node of the tree; plus (pattern, text) pairs for dowild and (line, domain, path) "
         "triples for ParsePattern/Match; non-trivial = some ignore file has a pattern line / the pattern has a glob-special byte; distinct by content")
 LEVEL_NOTE = ("trusted: Coq 8.16.1 kernel; the correspondence harness; S is a transcription of git 2.39.5 validated against the binary on every run. "
               "Theorems: dowild total; dowild (flags 0) sound and complete for a declarative glob semantics on the fragment literal/?/*/**/escapes/"
@@ -155,7 +159,10 @@ def gen_pattern(rng, tree, base):
     if rng.random() < 0.2:
         line = b"!" + line
     r = rng.random()
-    if r < 0.08:
+    if line.endswith(b"/") and r < 0.35:
+        # a directory-only pattern followed by blanks (git trims before it looks for the slash)
+        line += rng.choice([b" ", b"  ", b"   ", b"\t", b" \t", b"\\ ", b"\\  ", b" \\ "])
+    elif r < 0.08:
         line += b" " * rng.randrange(1, 3)
     elif r < 0.10:
         line += b"\\ "
@@ -188,7 +195,50 @@ def gen_file(rng, tree, base, tier):
     return content
 
 
+DIR_BLANKS = [b" ", b"  ", b"   ", b"\t", b" \t", b"\\ ", b"\\  ", b" \\ ", b""]
+
+
+def gen_dironly_blanks_case(rng, tier):
+    """directory-only patterns followed by trailing blanks / escaped blanks / tabs, in the root file, a nested
+    file and info/exclude, against a tree that has those directories (with files below) and same-named files"""
+    names = rng.sample([b"build", b"cache", b"out", b"tmp", b"a b", b"x"], 3)
+    tree = {}
+    top = rng.choice([b"src", b"sub"])
+    tree[(top,)] = True
+    for i, n in enumerate(names):
+        where = [(), (top,)][i % 2] if rng.random() < 0.7 else ()
+        isdir = rng.random() < 0.8
+        tree[where + (n,)] = isdir
+        if isdir:
+            tree[where + (n, b"f.o")] = False
+            if rng.random() < 0.4:
+                tree[where + (n, b"deep")] = True
+                tree[where + (n, b"deep", b"g")] = False
+    tree[(top, b"keep.c")] = False
+
+    def line(n):
+        n = escape_name(n) if b" " in n else n
+        pre = rng.choice([b"", b"", b"/", b"**/", b"!"])
+        mid = rng.choice([n, n, n[:-1] + b"*", b"?" + n[1:], n + b"/" + b"*" if rng.random() < 0.1 else n])
+        return pre + mid + b"/" + rng.choice(DIR_BLANKS)
+    files = []
+    root_lines = [line(n) for n in rng.sample(names, rng.randrange(1, 3))]
+    if rng.random() < 0.3:
+        root_lines.insert(rng.randrange(len(root_lines) + 1), rng.choice([b"*.o", b"!*.c", b"# c", b""]))
+    if rng.random() < 0.85:
+        files.append({"dir": [], "content": (b"\n".join(root_lines) + rng.choice([b"\n", b"", b"\r\n"])).hex()})
+    if rng.random() < 0.6:
+        files.append({"dir": [top.hex()], "content": (b"\n".join(line(n) for n in rng.sample(names, rng.randrange(1, 3))) + b"\n").hex()})
+    c = {"bucket": "dironly-blanks", "files": files}
+    if rng.random() < 0.4 or not files:
+        c["exclude"] = (b"\n".join(line(n) for n in rng.sample(names, rng.randrange(1, 3))) + b"\n").hex()
+    c["queries"] = [{"path": [x.hex() for x in p], "isdir": d} for p, d in sorted(tree.items())]
+    return c
+
+
 def gen_ignore_case(rng, tier):
+    if rng.random() < 0.15:
+        return gen_dironly_blanks_case(rng, tier)
     tree = gen_tree(rng, tier)
     while not tree:
         tree = gen_tree(rng, tier)
@@ -246,6 +296,8 @@ def git_verdicts(tmp, tpl, case):
             os.makedirs(dd, exist_ok=True)
             with open(os.path.join(dd, b".gitignore"), "wb") as fh:
                 fh.write(bytes.fromhex(f["content"]))
+        # directories are queried WITHOUT a trailing slash: they exist in the scratch tree, so git finds their type
+        # itself; with a slash check-ignore takes the text after it (nothing) as the basename and answers differently
         inp = b"".join(b"/".join(bytes.fromhex(x) for x in q["path"]) + b"\0" for q in case["queries"])
         env = dict(GITENV, HOME=tmp, XDG_CONFIG_HOME=os.path.join(tmp, "xdg"))
         p = subprocess.run(["/usr/bin/git", "check-ignore", "--no-index", "-v", "-n", "-z", "--stdin"], input=inp, cwd=d,
@@ -451,6 +503,8 @@ def classify(case, qi, impl_v, git_v, git_detail, why, model_v):
             return cls
     if who == "go" and neg and why["anc"] and not impl_v and git_v:
         return "negated-ancestor"
+    if who == "go" and not neg and why["anc"] and impl_v and not git_v and body_of(raw).count(b"/") >= 1:
+        return "dir-pattern-below-reincluded-dir"
     return None
 
 
@@ -502,7 +556,8 @@ class Ignore(Suite):
         return {c["id"]: ctx.c49_git[self.key(c)] for c in cases}
 
     def oracle(self, ctx, cases, impl, model):
-        """the property itself: go-git's verdict (Scope walk) == git check-ignore's, for every path of the case"""
+        """the property itself: go-git's verdict (Scope walk as a status walk does it, and the flat Matcher) ==
+        git check-ignore's, for every directory and every file of the case's tree"""
         git = self.git_all(ctx, cases)
         fails = {}
         for c in cases:
@@ -512,7 +567,9 @@ class Ignore(Suite):
                 fails[c["id"]] = "class=?; no verdicts from the implementation: %s" % (r["out"][:100] if r else None)
                 continue
             mv = parse_bools(model.get(c["id"]))
-            why = r.get("extra") or [None] * len(iv)
+            ex = r.get("extra") or {}
+            why = ex.get("why") or [None] * len(iv)
+            flat = ex.get("flat")
             bad = []
             differs = {}
             for qi, (q, g) in enumerate(zip(c["queries"], git[c["id"]])):
@@ -532,6 +589,28 @@ class Ignore(Suite):
                 if mv and len(mv) == len(iv) and mv[qi] != iv[qi]:
                     cls = None
                 bad.append((cls, qi, g))
+            # the deprecated flat API, NewMatcher(ReadPatterns(fs)).Match, on the same tree: where it answers like
+            # the Scope walk the comparison above covers it; where it does not, only the documented limitation is
+            # known (it cannot express an excluded parent: a path below a directory git ignores is re-included)
+            if flat is None or len(flat) != len(iv):
+                bad.append((None, 0, (None, "flat matcher gave no verdicts: %s" % ex.get("flat_err"))))
+            else:
+                ign_dirs = {tuple(q["path"]) for q, g in zip(c["queries"], git[c["id"]]) if q["isdir"] and g is not None and g[0]}
+                for qi, (q, g) in enumerate(zip(c["queries"], git[c["id"]])):
+                    if g is None or flat[qi] == g[0] or flat[qi] == iv[qi]:
+                        continue
+                    below = any(tuple(q["path"][:k]) in ign_dirs for k in range(1, len(q["path"])))
+                    cls = "flat-matcher-excluded-parent" if (not flat[qi] and g[0] and below) else None
+                    if cls is None:
+                        # ReadPatterns decides which ignore files to read with the same matcher: a directory on which
+                        # go-git and git already differ (reported above) explains a difference below it
+                        for k in range(1, len(q["path"])):
+                            if tuple(q["path"][:k]) in differs:
+                                root = differs[tuple(q["path"][:k])]
+                                gr = git[c["id"]][root]
+                                cls = classify(c, root, iv[root], gr[0], gr[1], why[root], mv[root] if mv and len(mv) == len(iv) else None)
+                                break
+                    bad.append((cls, qi, (g[0], "flat Matcher says %s; %s" % (flat[qi], g[1]))))
             if bad:
                 bad.sort(key=lambda b: (b[0] is not None, b[1]))
                 cls, qi, g = bad[0]
